@@ -175,6 +175,11 @@ func (c *cdbdriver) GetLocationByMap(ipnet *net.IPNet, mapID []byte, context Con
 		if mask > maxMask {
 			continue
 		}
+		if isv4 && mask < 8*(net.IPv6len-net.IPv4len) {
+			// prefixes shorter than /96 belong to IPv6 subnets (e.g. ::/0) and
+			// must not match an IPv4 client through its v6-mapped form
+			continue
+		}
 		// Finish creating the search key:
 		// "{key_prefix}{ipv6_subnet_bitmap}"
 		currentCIDRMask := cachedCIDRMask[mask]
